@@ -16,9 +16,7 @@ matching tag, which is how the sweep stays clear of open findings.
 
 Not generated at all (scope limits, repeated in the checks' docstrings):
 floating operands other than a floating literal as immediate cast operand;
-`long long` mixed with `unsigned long` (and `long` with `unsigned long long`)
-in one arithmetic operation (same size, only the name of the common type
-differs); literals whose suffix names a type too narrow for the value
+literals whose suffix names a type too narrow for the value
 (`4294967296u`: valid C, ppci answers with a diagnostic); `_Bool`; wide
 characters; multi-character constants.
 """
@@ -51,6 +49,7 @@ K_PACK = "pack-rejects-out-of-range-initializer"
 K_CHAR = "char-constant-has-type-char"
 K_SHIFT = "shift-result-type-from-both-operands"
 K_PROMO = "no-integer-promotion-unary-ternary-compare"
+K_TERNPROMO = "conditional-operator-arms-not-promoted"
 K_DECLIT = "decimal-literal-gets-unsigned-int"
 K_ENUM = "enumerator-operand-gives-enum-typed-arithmetic"
 K_SIZET = "sizeof-result-is-signed-long"
@@ -58,7 +57,7 @@ K_EQPREC = "equality-parsed-at-relational-precedence"
 K_TERNCOND = "ternary-condition-converted-to-int"
 # C28 only (trees that ppci evaluates at run time, e.g. initialisers of local aggregates):
 K_NARROW = "narrow-int-mul-div-neg-and-float-casts"
-ALL_KEYS = (K_MISSING, K_FLOOR, K_NOWRAP, K_PACK, K_CHAR, K_SHIFT, K_PROMO, K_DECLIT, K_ENUM, K_SIZET, K_EQPREC, K_TERNCOND)
+ALL_KEYS = (K_MISSING, K_FLOOR, K_NOWRAP, K_PACK, K_CHAR, K_SHIFT, K_PROMO, K_DECLIT, K_ENUM, K_SIZET, K_EQPREC, K_TERNCOND, K_TERNPROMO)
 
 
 def bits(t):
@@ -309,8 +308,6 @@ class Gen:
                 if v != exact:
                     tags.add(K_NOWRAP)
             ptype = a.ptype  # ppci does not promote the operand of unary + - ~
-            if ptype and op in "-~" and K_NARROW in self.avoid:
-                return None      # would become an 8/16-bit NEG/INV when evaluated at run time
         if tags & self.avoid:
             return None
         inner = a.emb(P_UNARY)
@@ -362,8 +359,6 @@ class Gen:
             else:
                 v = int(bool(a.value) or bool(b.value))
         else:
-            if self.bad_mix(ta, tb):
-                return None  # scope limit, see module docstring
             t = uac(ta, tb)
             x = self.conv(a.value, t, tags)
             y = self.conv(b.value, t, tags)
@@ -418,21 +413,19 @@ class Gen:
     def ternary(self, c, a, b):
         tags = set(c.tags) | set(a.tags) | set(b.tags) | {K_MISSING}
         ta, tb = promote(a.ctype), promote(b.ctype)
-        if self.bad_mix(ta, tb):
-            return None
         t = uac(ta, tb)
         ptype = None
         if a.ptype and b.ptype:
             # ppci: common type of the unpromoted arms
             if a.ptype != b.ptype:
-                tags.add(K_PROMO)
+                tags.add(K_TERNPROMO)
             ptype = max(a.ptype, b.ptype, key=lambda k: PPCI_SUBRANK[k])
         if bool(wrap(c.value, "int")) != bool(c.value):
             tags.add(K_TERNCOND)   # ppci converts the condition to int: 0x100000000 ? a : b takes b
         chosen = a if c.value else b
         v = self.conv(chosen.value, t, tags)
         if ptype and not fits(v, ptype):
-            tags.add(K_PROMO)   # ppci gives the whole ?: the sub-int type and reduces the value to it
+            tags.add(K_TERNPROMO)   # ppci gives the whole ?: the sub-int type and reduces the value to it
         if tags & self.avoid:
             return None
         text = "%s ? %s : %s" % (c.emb(PREC["||"], self.r), a.emb(PREC["?:"] + 1, self.r),
@@ -445,7 +438,7 @@ class Gen:
         tags = set(a.tags)
         if a.ptype and a.ctype not in SUBINT:
             # C promoted this expression to int, ppci kept a sub-int type
-            tags.add(K_CHAR if a.kind == "char" else K_PROMO)
+            tags.add({"char": K_CHAR, "tern": K_TERNPROMO}.get(a.kind, K_PROMO))
         if tags & self.avoid:
             return None
         return self.size_t_node("sizeof(%s)" % a.text, bits(a.ctype) // 8, "sizeofe", tags,
